@@ -65,6 +65,40 @@ def mixed_case(rng):
     return f'({n}, {es}, {e1}, {e2})', dict(n=n, mixed_edges=mg)
 
 
+def explain(pid, info):
+    """the property's declarative clause on one DAG case (independent of the translation): returns a description or None"""
+    from .refdefs import closure, simple_paths
+    n, arcs, x, y, mx = info['n'], info['arcs'], info['x'], info['y'], info['max_num_paths']
+    if pid != 'C19' or x == y or y >= n:
+        return None
+    N = D.NAMES
+    g = CausalGraph()
+    g.add_nodes_from([N[i] for i in range(n)])
+    for a, b in arcs:
+        g.add_edge(N[a], N[b])
+    ix = {N[i]: i for i in range(n)}
+    reach = closure(n, arcs)
+    try:
+        got = sorted(ix[v] for v in identify_mediators(g, N[x], N[y], max_num_paths=mx))
+    except Exception:  # noqa: BLE001  (the documented ValueError beyond the path limit is an allowed outcome)
+        return None
+    if x in reach[y]:
+        exp = []
+    else:
+        paths = [p for p in simple_paths(n, arcs, x, y) if len(p) > 2]
+        if not paths:
+            exp = []
+        else:
+            cand = set.intersection(*[set(p) - {x, y} for p in paths])
+            conf = [ix[v] for v in identify_confounders(g, N[x], N[y])]
+            pruned = closure(n, [(a, b) for a, b in arcs if a != x])
+            exp = sorted(m for m in cand if not any(m in pruned[z] for z in conf))
+    if got != exp:
+        return (f'identify_mediators({N[x]!r},{N[y]!r}, max_num_paths={mx}) = {[N[v] for v in got]} on edges {[(N[a], N[b]) for a, b in arcs]}, '
+                f'the nodes inside every directed path (and not reached by a confounder) are {[N[v] for v in exp]}')
+    return None
+
+
 def gen_correspondence(run, pid, tier, seed):
     rng = random.Random(seed + 977)
     ncase = 250 if tier == 'quick' else 3000
@@ -105,6 +139,12 @@ def gen_correspondence(run, pid, tier, seed):
     except Exception as e:  # noqa: BLE001
         detail = f'{type(e).__name__}: {e}'[:400]
         bad.append(None)
+    # a disagreement is a broken correspondence; turn it into a failing input where the property's own clause can be evaluated
+    for info in [b for b in bad if b and 'arcs' in b][:20]:
+        why = explain(pid, info)
+        if why:
+            run.violation(dict(info, why=why), note=why[:200])
+            break
     run.coverage['translated_source_cases'] = len(rows) + len(mixed_rows)
     run.oblige(f'correspondence: translated identify_utils.py ({mod}) == implementation on {len(rows) + len(mixed_rows)} cases, two set-iteration orders',
                not bad, detail or (f'first disagreement: {bad[0]!r}'[:480] if bad else ''))
